@@ -142,7 +142,7 @@ pub const HOSTILE: [u8; 26] = [
 ];
 
 /// Tokens used for `TokenSubst` / `Insert`: every keyword and operator of the grammar plus boundary literals.
-pub const DICT: [&str; 118] = [
+pub const DICT: [&str; 131] = [
     "void", "char", "short", "int", "signed", "unsigned", "const", "inline", "interrupt", "bank1", "bank9", "superchip",
     "ramchip", "display", "aligned(256)", "reversed", "scattered(16,1)", "holeydma", "screencode", "nopagecross",
     "if", "else", "for", "while", "do", "switch", "case", "default", "break", "continue", "return", "goto", "asm",
@@ -157,7 +157,10 @@ pub const DICT: [&str; 118] = [
     "2000000000", "0x7fffffff", "-2147483648", "1000000",
     // hostile literals: escapes without digits / out of range, empty and multi-character constants, a forged
     // string-literal marker, an over-long bank number
-    "\"\\x\"", "\"\\x100\"", "\"\\q\\\"", "'\\x'", "'ab'", "\"\\\\\"", "@5@", "@99999999999@", "bank99999999999", "bank0",
+    "\"\\x\"", "\"\\x100\"", "\"\\q\\\"", "'\\x'", "'ab'", "\"\\\\\"", "@5@", "@99999999999@", "bank99999999999", "bank0",    // quotes and multi-byte characters inside literals and outside; extremes of the constant evaluator; names of
+    // the wrong kind (a function where a value is wanted, an inline function that is only declared)
+    "'\"'", "'\\\"'", "'\u{e9}'", "\"h\u{e9}\u{65e5}\"", "\u{e9}", "(-2147483647 - 1)", "/ -1", "2147483647", "proto_only",
+    "inline void proto_only();", "if (X) continue;", "strobe(main);", "X = main;",
 ];
 
 #[derive(Clone, Copy, Debug, PartialEq, Eq)]
@@ -233,8 +236,9 @@ pub const SINGLE_KINDS: [&str; 18] = [
 ];
 
 /// Values an integer literal is retyped as (range boundaries of char, short, i32 and beyond).
-pub const BOUNDARY: [&str; 14] = [
+pub const BOUNDARY: [&str; 16] = [
     "0", "1", "-1", "127", "128", "255", "256", "32768", "65535", "65536", "2000000000", "0x7fffffff", "-2147483648", "99999999999",
+    "(-2147483647 - 1) / -1", "(-2147483647 - 1)",
 ];
 
 /// spans of the integer-literal tokens of a program
@@ -253,9 +257,11 @@ pub fn line_ends(src: &[u8]) -> Vec<usize> {
 
 /// Whole lines a confused producer may splice in at a line boundary: unbalanced or operand-less
 /// directives, comment and string openers/closers.
-pub const LINES: [&str; 23] = [
+pub const LINES: [&str; 25] = [
     "#endif", "#else", "#elif 1", "#elif", "#if", "#if 0", "#if 1", "#ifdef", "#ifndef X", "#define", "#define X X", "#undef",
     "#undef X", "#include", "#include \"nofile.h\"", "#include <", "#error", "#error stop", "#", "/*", "*/", "\"", "\\",
+    // ordinary-looking lines: quote characters compared on one line, non-ASCII text
+    "if (X == '\"' || X == '\\\"') X = 0;", "X = '\u{e9}' + '\u{e8}' + '\u{e0}' + '\u{f9}' + '\u{e7}' + '\u{e9}' + '\u{e8}' + '\u{e0}' + '\u{f9}' + '\u{e7}' + '\u{e9}' + '\u{e8}';",
 ];
 
 /// distinct token texts of a program, in order of first appearance
